@@ -64,7 +64,8 @@ def faults_for(case):
     if kind in ("MS", "SS"):
         out += [{"fault": "alg_explicit"}, {"fault": "roots_shooting"}, {"fault": "alg_eq_no_var"}]
     if kind == "Spline":
-        out += [{"fault": "spline_nonlinear"}, {"fault": "spline_time_varying"}]
+        out += [{"fault": "spline_nonlinear"}, {"fault": "spline_time_varying"}, {"fault": "spline_affine_number"},
+                {"fault": "spline_affine_parameter"}, {"fault": "spline_state_without_chain"}]
     return out
 
 
@@ -95,7 +96,8 @@ def ispec_coq(case, f):
         nalg, "true" if kind in ("MS", "SS") else "false",
         "false" if fl == "horizon_in_ode" else "true",
         1 if fl == "roots_shooting" else 0,
-        "false" if fl in ("spline_nonlinear", "spline_time_varying") else "true")
+        "false" if fl in ("spline_nonlinear", "spline_time_varying", "spline_affine_number", "spline_affine_parameter",
+                           "spline_state_without_chain") else "true")
 
 
 def worker(args):
@@ -133,6 +135,13 @@ def worker(args):
                     c["ode"][1] = ["*", ["s", "u", 0], ["s", "x", 0]]
                 if fl == "spline_time_varying":
                     c["ode"][1] = ["+", ["s", "u", 0], ["s", "t"]]
+                if fl == "spline_affine_number":
+                    c["ode"][0] = ["+", ["s", "x", 1], ["c", 1, 1]]
+                if fl == "spline_affine_parameter":
+                    c["ode"][0] = ["+", ["s", "x", 1], ["s", "p", 0]]
+                if fl == "spline_state_without_chain":
+                    c["states"] = c["states"] + [{"rows": 1, "cols": 1}]
+                    c["ode"] = c["ode"] + [["c", 0, 1]]
                 c["_fault"] = f
                 out["phase"] = "declaration"
                 if fl == "master_path_constraint":
